@@ -341,6 +341,27 @@ def run(ctx):
                             wid = v.cfg_id(w)
                             dom = v.cfg.branch_dominated(tid, lab, wid)
                             res.check(dom, "G-DOM", fi.short, norm(w), name, f"`{name}` is updated for hyperedges that fail the size guard: hyperedges larger than the bound influence the result", loc(fi, w))
+                # ---- an accumulator filled by a pass over ALL hyperedges in which the bound is never consulted
+                bparams_ = [p_ for p_ in params if "size" in p_ or "max" in p_ or "bound" in p_]
+                if bparams_ and fi is top.fi:
+                    for lp in [n for n in walk_no_nested(fi.node) if isinstance(n, ast.For) and v.enclosing(n, (ast.For, ast.While)) is None]:
+                        it_ = v.inline(lp.iter, depth=2)
+                        raw = any(isinstance(x, ast.Call) and isinstance(x.func, ast.Attribute) and x.func.attr == "get_edges" and not any(k.arg in ("size", "order") for k in x.keywords) for x in ast.walk(it_))
+                        if not raw:
+                            continue
+                        ws = [(w, nm) for w, nm in _writes_to(accs, lp)]
+                        if not ws:
+                            continue
+                        consults = any(isinstance(x, ast.Name) and x.id in bparams_ for t_ in ast.walk(lp) if isinstance(t_, (ast.If, ast.IfExp, ast.comprehension, ast.While)) for x in ast.walk(t_.test if not isinstance(t_, ast.comprehension) else ast.Tuple(elts=list(t_.ifs), ctx=ast.Load())))
+                        if consults or any(isinstance(x, ast.Name) and x.id in bparams_ for x in ast.walk(v.inline(lp.iter, depth=4))):
+                            continue  # (the iterated collection was already restricted by the bound)
+                        # is what it fills read when the result is computed?  (the accumulator is mentioned after the loop)
+                        for w, nm in ws:
+                            later = any(isinstance(x, ast.Name) and x.id == nm and getattr(x, "lineno", 0) > lp.end_lineno for x in ast.walk(fi.node))
+                            if later:
+                                n_guards += 1
+                                res.violation("G-DOM", fi.short, norm(w), nm, f"`{nm}` is filled by a pass over all hyperedges in which `{bparams_[0]}` is never consulted: hyperedges larger than the bound influence the result", loc(fi, w))
+                                break
                 # ---- D-INC: counters are incremented by 1, once per hyperedge
                 for n in walk_no_nested(fi.node):
                     if isinstance(n, ast.AugAssign) and isinstance(n.target, ast.Subscript) and isinstance(n.target.value, ast.Name) and (n.target.value.id in counters or (n.target.value.id in accs and isinstance(n.value, ast.Constant))):
